@@ -228,6 +228,25 @@ def r4_finite(ctx):
                 ok, why = False, f"`{U(c)[:60]}` (fractional power of x - tau) is not guarded by where(x - tau > 0, ...)"
     ctx.check(ok, "C08.R4", f, f.node, "log and fractional power only see positive reparametrised times", why + ": an event before the reference time gives NaN instead of a finite penalty", construct="guarded log / power")
     ctx.check("-constants.INFINITY" in src, "C08.R4", f, f.node, "event before the reference time: finite prohibitive penalty", "no finite penalty for an event before the reference time", construct="penalty value")
+    # the finite stand-in for infinity (1e307) only exists in double precision: no aggregation of likelihood terms may down-cast
+    n_agg = 0
+    for fa in ix.iter_funcs():
+        if not (fa.mod.startswith("leaspy.models") or fa.mod.startswith("leaspy.variables") or fa.mod.startswith("leaspy.utils.weighted_tensor")):
+            continue
+        for c in ast.walk(fa.node):
+            if not isinstance(c, ast.Call):
+                continue
+            fn_ = U(c.func)
+            is_agg = fn_.split(".")[-1] in ("sum_dim", "wsum_dim", "wsum_dim_return_weighted_sum_only", "wsum_dim_return_sum_of_weights_only", "sum", "then") or \
+                (fn_.endswith(".then") and c.args and U(c.args[0]).split(".")[-1].startswith(("sum_dim", "wsum_dim")))
+            if not is_agg:
+                continue
+            n_agg += 1
+            for k in c.keywords:
+                if k.arg == "dtype" and U(k.value) not in ("torch.float64", "torch.double", "float", "torch.bool", "bool", "torch.long", "torch.int64", "int"):
+                    ctx.violation("C08.R4", fa, c, f"`{U(c)[:80]}` aggregates with dtype `{U(k.value)}`: the values are cast before being summed, and the finite penalty 1e307 "
+                                  "(an event before the reference time) overflows to inf in single precision", construct="no down-cast in likelihood aggregations")
+    ctx.ok("C08.R4", (DIST, "<module>"), None, f"{n_agg} aggregation calls in models / variables: none down-casts", construct="no down-cast in likelihood aggregations")
     g = ix.func(DIST, "AbstractWeibullRightCensoredFamily.compute_log_survival", "C08.R4")
     Tg = rep_time_var(g)
     clamps = [c for c in ast.walk(g.node) if isinstance(c, ast.Call) and U(c.func) == "torch.clamp" and c.args and U(c.args[0]) == Tg and (U(kwarg(c, "min")) in ("0.0", "0") if kwarg(c, "min") is not None else False)]
